@@ -238,6 +238,7 @@ def explore(case):
                              detail=dict(r=p0, result=q), sub="convert", case=case)
     numeric_path(res, srcs[:: max(1, len(srcs) // 12)], case)
     matrix_forms(res, srcs[:: max(1, len(srcs) // 40)], case)
+    aliasing(res, srcs[:: max(1, len(srcs) // 14)], case)
     res.samples.append(dict(n_sources=len(srcs), n_words=len(words), example=srcs[min(5, len(srcs) - 1)][0]))
     return res
 
@@ -303,6 +304,52 @@ def numeric_path(res, srcs, case):
                         if not same_meaning(r4, want4):
                             res.fail(site="SO3%s.from_%s" % (to, frm), clause="numeric_api:param_reassignment_takes_effect", cls=rtag,
                                      detail=dict(first=p0, then=p2, got=r4, want=want4), sub="convert", case=case)
+                        break
+
+
+def aliasing(res, srcs, case):
+    """several rotations alive at once: to_Matrix results held together, and conversions of elements built from one refilled work vector"""
+    from .. import numapi
+    names = {"Quat": "SO3Quat", "Mrp": "SO3Mrp", "Dcm": "SO3Dcm", "Euler": "SO3EulerB321"}
+    pools = {k: [] for k in KINDS}
+    for tag, R, reps in srcs:
+        for k in KINDS:
+            for rtag, p0 in reps[k][:1]:
+                if np.all(np.isfinite(p0)):
+                    pools[k].append(np.asarray(p0, dtype=float))
+    for k in KINDS:
+        B = lib.built(names[k])
+        B.get("to_Matrix")
+        numapi.check_aliasing(res, B, pools[k][:12], [], case, "convert", ("to_Matrix",))
+    for frm in KINDS:
+        Gf = lib.SO3S[frm]
+        pool = pools[frm][:8]
+        for to in KINDS:
+            if to == frm or conv(to, frm) is None:
+                continue
+            Gt = lib.SO3S[to]
+            for i in range(len(pool) - 1):
+                pa, pb = pool[i], pool[i + 1]
+                if np.array_equal(pa, pb):
+                    continue
+                res.count("evaluations", 2)
+                res.count("aliasing_calls", 2)
+                buf = ca.SX(len(pa), 1)
+                for j, v in enumerate(pa):
+                    buf[j] = float(v)
+                Xa = Gf.elem(buf)
+                for j, v in enumerate(pb):
+                    buf[j] = float(v)
+                Xb = Gf.elem(buf)
+                ca_, cb_ = getattr(Gt, "from_" + frm)(Xa), getattr(Gt, "from_" + frm)(Xb)  # both alive before evaluation
+                ga, gb = numapi.ev(ca_.param).reshape(-1), numapi.ev(cb_.param).reshape(-1)
+                for which, got, p_ in (("first", ga, pa), ("second", gb, pb)):
+                    want = call(conv(to, frm), p_)
+                    okv = numapi._same(got, want, 1e-11)[0] or (np.all(np.isfinite(got)) and np.all(np.isfinite(want)) and
+                                                              ref.rot_dist(gutil.ref_R_of_slot(to, got), gutil.ref_R_of_slot(to, want)) <= 1e-9)
+                    if not okv:
+                        res.fail(site="SO3%s.from_%s" % (to, frm), clause="numeric_api:element_keeps_its_value_when_the_callers_buffer_is_refilled", cls=which,
+                                 detail=dict(a=pa, b=pb, got=got, want=want), sub="convert", case=case)
                         break
 
 
